@@ -35,7 +35,7 @@
 (*   the instance tags through which idle behaviour survives a restart are *)
 (*   written asynchronously; here the idle behaviour simply persists.      *)
 (*                                                                         *)
-(* The contract's variables (api, procs, ib, lk, lkNext, pass, ever, pend, mode) are carried as   *)
+(* The contract's variables (api, procs, ib, ibv, lk, lkNext, pass, ever, pend, mode) are carried as   *)
 (* ghost state; model actions apply the contract's *Eff operators (never   *)
 (* its guards) and the action property Refines states that every step is a *)
 (* guarded contract step - except in behaviours of the known class kf      *)
@@ -51,7 +51,7 @@ CONSTANTS NC, NW,            \* containers 1..NC, instance slots 1..NW
           B,                 \* budgets [restart, crash, user, brk, apifail, opib]
           MaxHist
 
-VARIABLES api, procs, ib, lk, lkNext, pass, ever, pend, mode, \* contract
+VARIABLES api, procs, ib, ibv, lk, lkNext, pass, ever, pend, mode, \* contract
           q, upd, dontupd, nextq, updMark,                   \* queue cache
           wk, exitedP, probing, dirty, killing, broken, vmx, \* pool; VM truth [exists, booted], unresponsive VMs
           phase, stale, rqE, rqRun, rqTodo, rqCur, unalloc, dontstart, overq,   \* scheduler
@@ -62,7 +62,7 @@ Ctrs == 1 .. NC
 Wk == 1 .. NW
 C == INSTANCE DispatchContract
 
-dcvars == <<api, procs, ib, lk, lkNext, pass, ever, pend, mode>>
+dcvars == <<api, procs, ib, ibv, lk, lkNext, pass, ever, pend, mode>>
 qv == <<q, upd, dontupd, nextq, updMark>>
 pv == <<wk, exitedP, probing, dirty, killing, broken, vmx>>
 sv == <<phase, stale, rqE, rqRun, rqTodo, rqCur, unalloc, dontstart, overq>>
